@@ -440,7 +440,7 @@ theorem clear_shape (C : Crypto) (c : Core) (d : Disk) (a : Abs) (h : Rep C c d 
       ∧ (∃ cc, c1.header = { c.header with contiguous := cc })
       ∧ (c.clear d s e).journal = j01 ++ c1.maybeFlush.2
       ∧ (∃ j2, j01 = SOp.write .oplog (Spec.entriesOffset + c.oplog.entriesByteLength) (frame (encEntry { bitfield := some ⟨true, s, e - s⟩ }) c.oplog.currentBit false) :: j2
-          ∧ (∀ op ∈ j2, op.store = .data) ∧ j2.length ≤ 1) := by
+          ∧ (∀ op ∈ j2, op.store = .data) ∧ j2.length ≤ 1 ∧ (∀ op ∈ j2, ∀ st o b, op ≠ SOp.write st o b)) := by
   have hge : ¬ s ≥ e := by omega
   have hse : s < e := by omega
   have hsn : s < a.blocks.size := hv hse
@@ -562,7 +562,12 @@ theorem clear_shape (C : Crypto) (c : Core) (d : Disk) (a : Abs) (h : Rep C c d 
     simpa [Disk.get] using this
   have hjournal : (c.clear d s e).journal = ent.2 ++ j2 ++ c1.maybeFlush.2 := by
     simp only [Core.clear, hge, ite_false, hbf, hs', he', hoff, he0, hrng, hnopanic, hent, hj2, hhd, hc1]
-  refine ⟨c1, ent.2 ++ j2, ?_, ?_, ?_, ?_, c1bf, ?_, ?_, c1sec, ?_, ?_, c1tree, ?_, hjournal, ⟨j2, by rw [← hent]; rfl, hj2store, by rw [← hj2]; split <;> simp⟩⟩
+  refine ⟨c1, ent.2 ++ j2, ?_, ?_, ?_, ?_, c1bf, ?_, ?_, c1sec, ?_, ?_, c1tree, ?_, hjournal, ⟨j2, by rw [← hent]; rfl, hj2store, by rw [← hj2]; split <;> simp, by
+    intro op hop st o b hh
+    rw [← hj2] at hop
+    split at hop
+    · cases hop
+    · simp at hop; rw [hop] at hh; cases hh⟩⟩
   · rw [hstep, List.append_assoc]
   · rw [habs, hsplit]
     refine { writer := ?_, tree := ?_, nodes := ?_, mapwf := ?_, bits := ?_, heldLt := ?_, contig := ?_, data := hdata2, small := h.small }
